@@ -28,6 +28,9 @@ pub struct Case {
     pub extra_names: Vec<String>,
     /// also exercise Rule::new + from_rules with the first `dup` rule names duplicated
     pub dup_names: bool,
+    /// rule i's top-level alternation is written without parentheses / a group
+    #[serde(default)]
+    pub bare_alt: Vec<bool>,
 }
 
 pub fn ref_regex(al: &AL, i: usize) -> Result<Regex, String> {
@@ -35,7 +38,20 @@ pub fn ref_regex(al: &AL, i: usize) -> Result<Regex, String> {
 }
 
 pub fn build_ref(pattern: &str, f: &AlFlags) -> Result<Regex, String> {
-    RegexBuilder::new(&format!("\\A(?:{pattern})"))
+    let mut rb = RegexBuilder::new(&format!("\\A(?:{pattern})"));
+    if let Some(n) = f.size_limit {
+        rb.size_limit(n);
+    }
+    if let Some(n) = f.dfa_size_limit {
+        rb.dfa_size_limit(n);
+    }
+    if let Some(n) = f.nest_limit {
+        rb.nest_limit(n);
+    }
+    if let Some(b) = f.unicode {
+        rb.unicode(b);
+    }
+    rb
         .octal(f.eff_octal())
         .multi_line(f.eff_multi_line())
         .dot_matches_new_line(f.eff_dot_nl())
@@ -55,6 +71,10 @@ pub fn lex_flags_of(f: &AlFlags) -> LexFlags {
     lf.case_insensitive = f.case_insensitive;
     lf.swap_greed = f.swap_greed;
     lf.ignore_whitespace = f.ignore_whitespace;
+    lf.size_limit = f.size_limit;
+    lf.dfa_size_limit = f.dfa_size_limit;
+    lf.nest_limit = f.nest_limit;
+    lf.unicode = f.unicode;
     lf
 }
 
@@ -301,7 +321,9 @@ impl Prop for C09 {
         // them and from_rules is only meant for generated code), so they are not generated
         let dup_names = false;
         let _ = ch.chance(1, 4);
+        let bare_alt = (0..al.rules.len()).map(|_| ch.chance(1, 2)).collect();
         serde_json::to_value(Case {
+            bare_alt,
             al,
             inputs,
             ids,
@@ -311,7 +333,7 @@ impl Prop for C09 {
         .unwrap()
     }
     fn rule(&self) -> String {
-        "AL: 1-6 rules with overlapping regexes (shared prefixes, classes, escapes of all kinds, alternation, repetition), 0-3 inclusive/exclusive start states, <S1,S2> prefixes, push/pop/replace targets, regex flags in a %grmtools section; 6 inputs each sampled from the rules' ASTs plus unmatchable characters and multi-byte text. Two construction paths: .l text through from_str, and Rule::new + from_rules (duplicate names possible). Ids through set_rule_ids with a map that misses some lexer names and has names the lexer lacks. Oracle: naive lexer (position loop, plain Vec state stack, regex crate built from the AST): same lexemes (id,start,len), same single error position; tiling; exact missing-name sets. Evaluation = one (spec,input,path). Non-trivial: >=2 active rules matched at some position, or a state operation executed, or a multi-byte character preceded a match; distinct by hash(spec,input).".into()
+        "AL: 1-6 rules with overlapping regexes (shared prefixes, classes, escapes of all kinds, alternation, repetition), 0-3 inclusive/exclusive start states, <S1,S2> prefixes, push/pop/replace targets, regex flags in a %grmtools section, top-level alternations with and without parentheses; 6 inputs each sampled from the rules' ASTs plus unmatchable characters and multi-byte text. Two construction paths: .l text through from_str, and Rule::new + from_rules (duplicate names possible). Ids through set_rule_ids with a map that misses some lexer names and has names the lexer lacks. Oracle: naive lexer (position loop, plain Vec state stack, regex crate built from the AST): same lexemes (id,start,len), same single error position; tiling; exact missing-name sets. Evaluation = one (spec,input,path). Non-trivial: >=2 active rules matched at some position, or a state operation executed, or a multi-byte character preceded a match; distinct by hash(spec,input).".into()
     }
     fn assumptions(&self) -> Vec<String> {
         vec![
@@ -331,6 +353,7 @@ impl Prop for C09 {
             "multibyte-before-match",
             "path:from_rules",
             "path:from_str",
+            "bare-top-level-alternation",
         ]
     }
     fn evaluate(&self, case: &Value) -> Outcome {
@@ -350,7 +373,12 @@ impl Prop for C09 {
                 }
             }
         }
-        let (src, _lay) = render(al, &RenderOpts::plain(al.rules.len()));
+        let mut ropts = RenderOpts::plain(al.rules.len());
+        ropts.bare_alt = (0..al.rules.len()).map(|i| case.bare_alt.get(i).copied().unwrap_or(false)).collect();
+        if al.rules.iter().enumerate().any(|(i, r)| matches!(r.re, crate::genr::lexspec::Re::Alt(_)) && ropts.bare_alt[i]) {
+            o.class("bare-top-level-alternation");
+        }
+        let (src, _lay) = render(al, &ropts);
         // ---- path 1: from_str
         let mut def = match catch(|| LRNonStreamingLexerDef::<LT>::from_str(&src)) {
             Ok(Ok(d)) => d,
@@ -415,7 +443,10 @@ impl Prop for C09 {
                 Some(i as u32),
                 name,
                 Span::new(0, 0),
-                r.re.reference(&al.flags),
+                match &r.re {
+                    crate::genr::lexspec::Re::Alt(v) if ropts.bare_alt[i] => v.iter().map(|x| x.reference(&al.flags)).collect::<Vec<_>>().join("|"),
+                    _ => r.re.reference(&al.flags),
+                },
                 r.states.clone(),
                 r.target.as_ref().map(|(s, op)| (*s, to_op(op))),
                 &lf,
